@@ -414,7 +414,7 @@ def stream_files(ctx, quick):
             cands.append("".join(rng.choice("ab1.:#@-") for _ in range(rng.randint(1, 8))) + rng.choice(["", "", ".link", ".memento.json"]))
         for key in cands:
             is_dir = rng.random() < 0.5
-            e = key.replace(":", "%3A") + ("" if is_dir else ".link")
+            e = sfs._FilesystemDataSource._escape_key(None, key) + ("" if is_dir else ".link")
             if key in (".", "..") or e in seen or e in (".versions", ".tmp") or "/" in key:
                 continue
             seen.add(e)
@@ -1129,6 +1129,8 @@ def main(chk, replay=None):
                         "admissible parts: cluster without '#', '::' and trailing ':'; module without ':' '#' (and no leading '.'); "
                         "function without '#', '::' and leading ':'; version without newline (boundary_* theorems show necessity)"]
     proof_ok = chk.build_and_audit()
+    import gen_tables
+    gen_tables.attach(chk, "C12Tables")
     quick = chk.tier == "quick"
     ctx = Ctx(chk, proof_ok)
     import twosigma.memento as m
